@@ -242,8 +242,9 @@ func c08r4(r *R) {
 		if p.eventIndex(0, "call", eq(done)) < 0 {
 			whyTO = append(whyTO, "select does not wait on the bounded context")
 		}
-		sel := "(select(<-" + done + ", <-makechan)#0 == 0)"
-		if p.holds(sel) {
+		if p.hasCond(func(c string) bool {
+			return strings.HasPrefix(c, "(select(<-"+done+", <-makechan#") && strings.HasSuffix(c, ")#0 == 0)")
+		}) {
 			nArm++
 			if p.eventIndex(0, "call", eq("invoke net.Conn.Close($0.Conn)")) < 0 {
 				whyArm = append(whyArm, "timeout arm does not close the connection")
